@@ -97,6 +97,9 @@ func registerCrypto(e *Engine) {
 		copy(out[32:], bvBytes(pubT, 32))
 		return out
 	}
+	for _, n := range []string{"P224", "P256", "P384", "P521"} {
+		x["crypto/elliptic."+n] = externNoop // only reached from package initialisers
+	}
 	x["crypto/rand.Read"] = func(ex *Exec, c *frame, f *ssa.Function, a []Value) Value {
 		b := a[0].(Slice)
 		if len(b) > 0 {
